@@ -12,4 +12,6 @@ for p in $(python3 -c "import sys; sys.path.insert(0,'tools'); import props; pri
 done
 [ -f harness/Cargo.lock ] || cp /repo/Cargo.lock harness/Cargo.lock
 ( cd harness && timeout 3000 cargo build --offline 2>&1 | tail -3 )
+# feature crate (quic+webrtc) of the C01 extra stream: built here so that the first quick check does not pay for it
+( timeout 3000 tools/c01_extra_streams.sh 1 1 > /dev/null 2>&1 ) || echo "c01 extra stream crate: build deferred to the check"
 echo "setup done"
